@@ -124,3 +124,45 @@ Proof.
   - exact (ScanLink.scanner_is_next_entry_content m bs s pos Hm).
 Qed.
 Print Assumptions C08_scanner_link.
+
+(* ------------------------------------------------------------------ *)
+(* The locality hypothesis of C08_independent_w DISCHARGED for the composed block stage (Proofs/PipelineLocal.v): with
+   blocksW := C03Inst.blocksW_pipe (Pipeline's sa_file behind the track slice) and `inside` := "the entry's track has exactly
+   the length the recorded size's rate rule and the file's length call for" — which every generated entry meets for a file of
+   unchanged length, whatever became of its content (PipelineLocal.inside_pipe_generated) — the assembler reads nothing beyond
+   the track (sa_asm_inside), so the result of every other intact entry is the same with the damaged stream as with the
+   pristine one.  No hypothesis about the block stage is left. *)
+From PFF Require Proofs.C03Inst Proofs.PipelineLocal.
+
+Theorem C08_independent_w_pipe :
+  forall (algo : N) (mb : nat) hash hlen bdec (o : option byte) fast (mu : nat -> nat -> nat),
+  (forall s c, 1 <= mu s c) -> (forall s c, 1 <= hlen + (mb - mu s c)) ->
+  let blocksW := C03Inst.blocksW_pipe algo mb hash hlen bdec o fast mu in
+  let inside := PipelineLocal.inside_pipe mb hlen mu in
+  forall marker delim ignore_size look intra window, marker <> [] ->
+  forall p0 cs1 c g cs2, clean_pieces marker (p0 :: cs1 ++ c :: cs2) ->
+  (cs2 = [] -> clean_last marker g) -> (cs2 <> [] -> clean_mid marker g) ->
+  forall j cj, nth_error (cs1 ++ c :: cs2) j = Some cj -> j <> length cs1 ->
+  intact_w delim ignore_size look intra window inside cj ->
+  let rw := results_w marker delim ignore_size look intra window blocksW in
+  length (rw (join marker (p0 :: cs1 ++ g :: cs2))) = length (rw (join marker (p0 :: cs1 ++ c :: cs2))) /\
+  exists r, nth_error (rw (join marker (p0 :: cs1 ++ c :: cs2))) j = Some r /\
+            nth_error (rw (join marker (p0 :: cs1 ++ g :: cs2))) j = Some r.
+Proof.
+  intros algo mb hash hlen bdec o fast mu MP TP blocksW inside marker delim ignore_size look intra window Hm.
+  apply (C08_independent_w marker delim ignore_size look intra window blocksW inside Hm).
+  intros db1 t1 e1 db2 t2 e2 tr sz file S1 S2 I.
+  exact (PipelineLocal.blocksW_pipe_local algo mb hash hlen bdec o fast mu MP TP db1 t1 e1 db2 t2 e2 tr sz file S1 S2 I).
+Qed.
+Print Assumptions C08_independent_w_pipe.
+
+Theorem C08_generated_entries_are_inside :
+  forall (algo : N) (mb : nat) hash hlen (mu : nat -> nat -> nat),
+  (forall s c, 1 <= mu s c) -> (forall s c, 1 <= hlen + (mb - mu s c)) -> (forall m, length (hash m) = hlen) ->
+  forall F0 file, length file = length F0 ->
+  PipelineLocal.inside_pipe mb hlen mu (C03Inst.track_w algo mb hash mu F0) (zlen F0) file.
+Proof.
+  intros algo mb hash hlen mu MP TP HL F0 file L.
+  exact (PipelineLocal.inside_pipe_generated algo mb hash hlen (fun _ _ _ _ => None) None mu MP TP HL F0 file L).
+Qed.
+Print Assumptions C08_generated_entries_are_inside.
